@@ -163,6 +163,25 @@ def known_finding_status(kf):
     if not cond:
         return 'not re-executed'
     hs = [json.loads(l) for l in open(os.path.join(ROOT, 'findings', 'histories.jsonl')) if l.strip()]
+    if 'c17_pair' in cond:
+        exe, err = _driver()
+        if exe is None:
+            return 'driver does not build'
+        try:
+            pair = [dict([x for x in hs if x.get('id') == i][0]) for i in cond['c17_pair']]
+            for x in pair:
+                x['user_dir'] = '/tmp/riti-verif-kf-%d' % os.getpid()
+            ra, rb = DR.run_histories(exe, pair)
+            import shutil
+            shutil.rmtree(pair[0]['user_dir'], ignore_errors=True)
+            unc = lambda t: t.replace('\u2018', "'").replace('\u2019', "'").replace('\u201c', '"').replace('\u201d', '"')
+            la = [unc(t) for t in ra['trace'][-1].get('list', [])]
+            lb = rb['trace'][-1].get('list', [])
+            if la != lb:
+                return 're-executed on the current tree: still fails (on, quotes mapped back: %r; off: %r)' % (la, lb)
+            return 're-executed on the current tree: no longer fails'
+        except Exception as ex:
+            return 're-execution failed: %r' % (ex,)
     h = [x for x in hs if x.get('id') == cond['history']]
     if not h:
         return 'history not found'
